@@ -578,24 +578,64 @@ def module_cases(ctx, files, main, label, desc, graph_cases, order_cases):
 
 # ------------------------------------------------------------------------------
 
+RECURSION_KEY = "recursion-limit:_find_cycles.strong_connect"
+
+
+def deep_chain_probe(ctx):
+    """A structure whose fields are declared in reverse dependency order: strong_connect recurses once per
+    field, so ~1000 fields exhaust the interpreter's recursion limit although the module is acyclic.  The
+    model's fuel is |graph|+1, so this is outside the correspondence; it is re-derived here on every run and
+    reported under RECURSION_KEY when that key is listed in KNOWN_FINDINGS.json (otherwise only noted)."""
+    n = 1100
+    L = ['[$default byte_order: "LittleEndian"]', "struct Foo:"]
+    for i in range(n - 1, 0, -1):
+        L.append("  if v%d == 0:\n    %d [+1]  UInt  v%d" % (i - 1, i, i))
+    L.append("  0 [+1]  UInt  v0")
+    text = "\n".join(L) + "\n"
+    o = full_compile({"deep.emb": text}, "deep.emb")
+    ctx.extra["deep_chain_probe"] = outcome_text(o)[:200]
+    if o[0] == "recursion" and o[1][1] == "strong_connect":
+        desc = ("an acyclic structure of %d fields declared in reverse dependency order ends in an uncaught RecursionError "
+                "in dependency_checker._find_cycles.strong_connect (900 fields are accepted)" % n)
+        if any(k.get("key") == RECURSION_KEY for k in ctx.known):
+            ctx.violation(RECURSION_KEY, desc, dict(kind="modules", main="deep.emb",
+                                                    generator="fields v1099..v1, each `if v(i-1) == 0: i [+1] UInt vi`, then `0 [+1] UInt v0`",
+                                                    outcome=outcome_text(o)), found_input=True)
+        else:
+            ctx.note("candidate finding (not listed, not failing the check): " + desc)
+            ctx.count("candidate:" + RECURSION_KEY)
+    elif o[0] in ("timeout",):
+        ctx.note("deep chain probe timed out")
+
+
+def run_item(ctx, item, label, graph_cases, order_cases):
+    """One corpus / replay item: {"kind": "graph"|"modules"|"ordering", ...}."""
+    if item.get("kind") == "ordering" and "names" not in item and isinstance(item.get("detail"), dict):
+        item = item["detail"].get("replay") or item
+    if item["kind"] == "graph":
+        g = {k: set(v) for k, v in item["graph"]}
+        c = graph_case(ctx, g, label, dict(kind="corpus", item=label))
+        if c and c[1]:
+            graph_cases.append(c)
+            ctx.case(("g", c[0]), nontrivial=True, sample=dict(graph=c[2]["rows"][:8], implementation=c[2]["py"]))
+    elif item["kind"] == "modules":
+        module_cases(ctx, item["files"], item["main"], label, None, graph_cases, order_cases)
+    elif item["kind"] == "ordering" and "names" in item:
+        names = [tuple(x) for x in item["names"]]
+        deps = [[tuple(y) for y in ds] for ds in item["deps"]]
+        params = [tuple(x) for x in item["params"]]
+        add_ordering_case(ctx, names, deps, params, "corpus", order_cases)
+    else:
+        ctx.note("item %s of unknown kind %r ignored" % (label, item.get("kind")))
+
+
 def replay_corpus(ctx, graph_cases, order_cases):
     d = os.path.join(fw.VERIF, "corpus", "C15")
     n = 0
     for p in sorted(glob.glob(os.path.join(d, "*.json"))):
         item = json.load(open(p))
         n += 1
-        if item["kind"] == "graph":
-            g = {k: set(v) for k, v in item["graph"]}
-            c = graph_case(ctx, g, "corpus:" + os.path.basename(p), dict(kind="corpus", file=p))
-            if c and c[1]:
-                graph_cases.append(c)
-        elif item["kind"] == "modules":
-            module_cases(ctx, item["files"], item["main"], "corpus:" + os.path.basename(p), None, graph_cases, order_cases)
-        elif item["kind"] == "ordering":
-            names = [tuple(x) for x in item["names"]]
-            deps = [[tuple(y) for y in ds] for ds in item["deps"]]
-            params = [tuple(x) for x in item["params"]]
-            add_ordering_case(ctx, names, deps, params, "corpus", order_cases)
+        run_item(ctx, item, "corpus:" + os.path.basename(p), graph_cases, order_cases)
     ctx.count("corpus-items", n)
 
 
@@ -664,10 +704,15 @@ def run(ctx):
         t_ph[0] = time.time()
     phase("coq-build")
     graph_cases, order_cases = [], []
-    replay_corpus(ctx, graph_cases, order_cases)
+    replaying = getattr(ctx, "replay_path", None)
+    if replaying:
+        doc = json.load(open(replaying))
+        run_item(ctx, doc.get("replay", doc), "replay:" + os.path.basename(replaying), graph_cases, order_cases)
+    else:
+        replay_corpus(ctx, graph_cases, order_cases)
 
     # (a) _find_cycles directly
-    n_graphs = 20000 if ctx.thorough() else 2000
+    n_graphs = 0 if replaying else 20000 if ctx.thorough() else 2000
     for i in range(n_graphs):
         g, shape = random_graph(ctx.rng)
         c = graph_case(ctx, g, "random-graph:%s:%d" % (shape, i), dict(kind="random-graph", index=i))
@@ -681,25 +726,27 @@ def run(ctx):
 
     phase("random-graphs")
     # (b) the ordering function directly
-    n_ord = 12000 if ctx.thorough() else 1500
+    n_ord = 0 if replaying else 12000 if ctx.thorough() else 1500
     for i in range(n_ord):
         names, deps, params, mode = random_ordering_input(ctx.rng)
         add_ordering_case(ctx, names, deps, params, mode, order_cases)
 
     phase("random-orderings")
     # (c) modules
-    n_mod = 1500 if ctx.thorough() else 160
+    n_mod = 0 if replaying else 1500 if ctx.thorough() else 160
     for i in range(n_mod):
         dm = gen_deps.DepsModules(ctx.rng)
         files = dm.file_map()
         ctx.count("shape:" + dm.shape)
         module_cases(ctx, files, "m0.emb", "gen:%d:%s" % (i, dm.shape), dm.planted(), graph_cases, order_cases)
     phase("generated-modules")
-    for p in sorted(glob.glob(os.path.join(fw.REPO, "testdata", "*.emb"))):
+    for p in ([] if replaying else sorted(glob.glob(os.path.join(fw.REPO, "testdata", "*.emb")))):
         rel = os.path.relpath(p, fw.REPO)
         module_cases(ctx, {rel: open(p).read()}, rel, "testdata:" + rel, None, graph_cases, order_cases)
-
     phase("testdata-modules")
+    if not replaying:
+        deep_chain_probe(ctx)
+    phase("deep-chain-probe")
     # model side
     # both batches are evaluated by Coq concurrently (each is itself sharded over processes)
     import threading
